@@ -61,12 +61,6 @@ Properties/C02.vos Properties/C02.vok Properties/C02.required_vos: Properties/C0
 Properties/C03.vo Properties/C03.glob Properties/C03.v.beautified Properties/C03.required_vo: Properties/C03.v Base.vo Prim.vo
 Properties/C03.vio: Properties/C03.v Base.vio Prim.vio
 Properties/C03.vos Properties/C03.vok Properties/C03.required_vos: Properties/C03.v Base.vos Prim.vos
-Proofs/BitAddr.vo Proofs/BitAddr.glob Proofs/BitAddr.v.beautified Proofs/BitAddr.required_vo: Proofs/BitAddr.v Base.vo
-Proofs/BitAddr.vio: Proofs/BitAddr.v Base.vio
-Proofs/BitAddr.vos Proofs/BitAddr.vok Proofs/BitAddr.required_vos: Proofs/BitAddr.v Base.vos
-Proofs/Shift.vo Proofs/Shift.glob Proofs/Shift.v.beautified Proofs/Shift.required_vo: Proofs/Shift.v Base.vo Prim.vo Model/Core.vo Model/Shift.vo Proofs/BitAddr.vo
-Proofs/Shift.vio: Proofs/Shift.v Base.vio Prim.vio Model/Core.vio Model/Shift.vio Proofs/BitAddr.vio
-Proofs/Shift.vos Proofs/Shift.vok Proofs/Shift.required_vos: Proofs/Shift.v Base.vos Prim.vos Model/Core.vos Model/Shift.vos Proofs/BitAddr.vos
 Properties/C05.vo Properties/C05.glob Properties/C05.v.beautified Properties/C05.required_vo: Properties/C05.v Base.vo Prim.vo
 Properties/C05.vio: Properties/C05.v Base.vio Prim.vio
 Properties/C05.vos Properties/C05.vok Properties/C05.required_vos: Properties/C05.v Base.vos Prim.vos
